@@ -45,6 +45,10 @@ func main() {
 		os.Exit(cmdDump(os.Args[2:]))
 	case "selftest":
 		os.Exit(cmdSelftest(os.Args[2:]))
+	case "lock":
+		os.Exit(cmdLock(os.Args[2:]))
+	case "replay":
+		os.Exit(cmdReplay(os.Args[2:]))
 	default:
 		fmt.Fprintln(os.Stderr, "unknown command", os.Args[1])
 		os.Exit(2)
@@ -86,6 +90,7 @@ type checkOpts struct {
 	noEvidence              bool
 	only                    string
 	mutantTag               string
+	showNotes               bool
 }
 
 type CheckOutcome struct {
@@ -114,6 +119,7 @@ func cmdCheck(args []string) int {
 	fs.IntVar(&o.timeout, "timeout", 0, "per-obligation solver timeout (s)")
 	fs.IntVar(&o.workers, "workers", 8, "")
 	fs.StringVar(&o.only, "only", "", "only obligations whose name contains this")
+	fs.BoolVar(&o.showNotes, "notes", false, "print imprecision notes")
 	fs.Parse(args)
 	if s := os.Getenv("VERIF_SEED"); s != "" && o.seed == 0 {
 		o.seed, _ = strconv.Atoi(s)
@@ -125,20 +131,74 @@ func cmdCheck(args []string) int {
 	return out.Exit
 }
 
-func loadPropConfig(verif, prop string) (*PropConfig, error) {
-	data, err := os.ReadFile(filepath.Join(verif, "props.json"))
+// cmdLock records the obligations discharged on the current (committed) tree; later runs require each of them
+// to be generated again (a vanished obligation is reported, it never silently counts as success).
+func cmdLock(args []string) int {
+	fs := flag.NewFlagSet("lock", flag.ExitOnError)
+	repo := fs.String("repo", "/repo", "")
+	verif := fs.String("verif", "/verif", "")
+	fs.Parse(args)
+	rc := 0
+	for _, prop := range fs.Args() {
+		os.Remove(filepath.Join(*verif, "lock", prop+".json"))
+		out := runCheck(checkOpts{prop: prop, tier: "thorough", repo: *repo, verif: *verif, quiet: true, noEvidence: true, workers: 8, timeout: 30, mutantTag: "lock"})
+		if out.Exit != 0 {
+			fmt.Printf("lock %s: refused, the check does not pass (exit %d): %v %v\n", prop, out.Exit, out.Violations, out.EngineErrs)
+			rc = 1
+			continue
+		}
+		var names []string
+		for _, r := range out.Results {
+			if r.OK && r.Variant == "" {
+				names = append(names, r.O.Name)
+			}
+		}
+		sort.Strings(names)
+		writeJSON(filepath.Join(*verif, "lock", prop+".json"), names)
+		fmt.Printf("lock %s: %d obligations recorded\n", prop, len(names))
+	}
+	return rc
+}
+
+func cmdReplay(args []string) int {
+	fs := flag.NewFlagSet("replay", flag.ExitOnError)
+	fs.String("repo", "/repo", "")
+	fs.String("verif", "/verif", "")
+	fs.Parse(args)
+	if fs.NArg() < 1 {
+		fmt.Println("usage: govc replay <path to replay json>")
+		return 2
+	}
+	data, err := os.ReadFile(fs.Arg(0))
 	if err != nil {
+		fmt.Println(err)
+		return 2
+	}
+	os.Stdout.Write(data)
+	var rec map[string]interface{}
+	json.Unmarshal(data, &rec)
+	if script, ok := rec["script"].(string); ok {
+		if _, err := os.Stat(script); err == nil {
+			r := solve(script, 30, 0, false)
+			fmt.Printf("re-run of %s: %s (%s, %.2fs)\n", script, r.Status, r.Solver, r.Time)
+		}
+	}
+	if t, ok := rec["replay_test"].(string); ok {
+		fmt.Println("replay test:", t)
+	}
+	return 1
+}
+
+func loadPropConfig(verif, prop string) (*PropConfig, error) {
+	data, err := os.ReadFile(filepath.Join(verif, "props", prop+".json"))
+	if err != nil {
+		return nil, fmt.Errorf("property %s not configured: %v", prop, err)
+	}
+	var pc PropConfig
+	if err := json.Unmarshal(data, &pc); err != nil {
 		return nil, err
 	}
-	var all map[string]*PropConfig
-	if err := json.Unmarshal(data, &all); err != nil {
-		return nil, err
-	}
-	pc, ok := all[prop]
-	if !ok {
-		return nil, fmt.Errorf("property %s not configured in props.json", prop)
-	}
-	return pc, nil
+	return &pc, nil
 }
 
 func loadFindings(verif string) (*FindingsFile, error) {
@@ -168,25 +228,32 @@ func hasProp(props []string, p string) bool {
 // generate builds all obligations of a property from the current working tree.
 func generate(p *Prog, prop string, ff *FindingsFile, out *CheckOutcome) []*Oblig {
 	var obs []*Oblig
-	var keys []string
-	for k, fc := range p.db.Funcs {
-		if fc.Trusted || fc.NoBody {
-			continue
-		}
-		if hasProp(fc.Props, prop) || clauseHasProp(fc, prop) {
-			keys = append(keys, k)
+	type job struct {
+		key string
+		fc  *FuncContract
+	}
+	var jobs []job
+	for k, cs := range p.db.Funcs {
+		for _, fc := range cs {
+			if fc.Trusted || fc.NoBody {
+				continue
+			}
+			if hasProp(fc.Props, prop) || clauseHasProp(fc, prop) {
+				jobs = append(jobs, job{k, fc})
+			}
 		}
 	}
-	sort.Strings(keys)
+	sort.Slice(jobs, func(i, j int) bool { return jobs[i].key < jobs[j].key })
 	trusted := map[string]bool{}
-	for _, k := range keys {
-		fc := p.db.Funcs[k]
+	for _, jb := range jobs {
+		k, fc := jb.key, jb.fc
 		fn, ok := p.funcs[k]
 		if !ok {
 			out.EngineErrs = append(out.EngineErrs, fmt.Sprintf("function under contract not found in the source: %s (%s:%d)", k, fc.File, fc.Line))
 			continue
 		}
 		g := NewGen(p)
+		g.prop = prop
 		g.regions = map[string]string{}
 		for _, f := range ff.Findings {
 			if f.Property == prop && f.Region != "" {
@@ -240,6 +307,7 @@ func generate(p *Prog, prop string, ff *FindingsFile, out *CheckOutcome) []*Obli
 			continue
 		}
 		g := NewGen(p)
+		g.prop = prop
 		var tpkg = p.pkgs[lm.Pkg]
 		env := &Env{g: g, vars: map[string]Val{}, st: &State{h: map[string]string{}}}
 		env.old = env.st
@@ -343,6 +411,20 @@ func runCheck(o checkOpts) *CheckOutcome {
 	}
 	if err := p.LoadContracts(); err != nil {
 		return fail("contracts: " + err.Error())
+	}
+	for f, e := range p.db.FileErrs {
+		// a broken contract file of another property (named …_cNN.go) does not concern this check
+		base := strings.ToLower(filepath.Base(f))
+		other := false
+		if i := strings.Index(base, "_c"); i >= 0 && strings.HasSuffix(base, ".go") {
+			tag := strings.TrimSuffix(base[i+1:], ".go")
+			if len(tag) >= 3 && tag[1] >= '0' && tag[1] <= '9' && !strings.EqualFold(tag, o.prop) {
+				other = true
+			}
+		}
+		if !other {
+			return fail("contracts: " + e.Error())
+		}
 	}
 	out.LoadS = time.Since(t0).Seconds()
 	t1 := time.Now()
@@ -483,6 +565,11 @@ func runCheck(o checkOpts) *CheckOutcome {
 	}
 	say("govc: property %s tier %s: %d functions under contract, %d obligations, %d discharged (load %.1fs, gen %.1fs, solve %.1fs)",
 		o.prop, o.tier, len(out.Funcs), len(results), nOK, out.LoadS, out.GenS, out.SolveS)
+	if o.showNotes {
+		for _, n := range out.Notes {
+			fmt.Println("  note:", n)
+		}
+	}
 	for _, r := range results {
 		if !r.OK && !o.quiet {
 			fmt.Printf("  NOT DISCHARGED %s: %s (%s) — %s\n", r.O.Name, r.Res.Status, r.O.Pos, r.O.Src)
@@ -515,15 +602,15 @@ func runCheck(o checkOpts) *CheckOutcome {
 }
 
 func loadLock(verif, prop string) []string {
-	data, err := os.ReadFile(filepath.Join(verif, "obligations.lock"))
+	data, err := os.ReadFile(filepath.Join(verif, "lock", prop+".json"))
 	if err != nil {
 		return nil
 	}
-	var all map[string][]string
-	if json.Unmarshal(data, &all) != nil {
+	var names []string
+	if json.Unmarshal(data, &names) != nil {
 		return nil
 	}
-	return all[prop]
+	return names
 }
 
 func writeJSON(path string, v interface{}) {
